@@ -34,6 +34,8 @@ Qed.
 Definition cast_rows (cast : caster) (n : nat) (rows : list (list string)) : list (list cellv) :=
   map (fun r => map (to_base cast) (firstn n r)) rows.
 
+Definition text_rows (n : nat) (rows : list (list string)) : list (list string) := map (firstn n) rows.
+
 Lemma rows_cast_ok : forall cast n rows, (forall r, In r rows -> n <= len r) ->
   rows_cast cast n rows = Ok (cast_rows cast n rows).
 Proof.
@@ -76,7 +78,7 @@ Qed.
 
 Lemma derive_table_ok_inv : forall cast h rows t,
   derive_table cast (h :: rows) = Ok t ->
-  t = mkTable h (len h) (cast_rows cast (len h) rows) /\ (forall r, In r rows -> len h <= len r).
+  t = mkTable h (len h) (cast_rows cast (len h) rows) (text_rows (len h) rows) /\ (forall r, In r rows -> len h <= len r).
 Proof.
   intros cast h rows t H. cbn [derive_table] in H.
   assert (Hall : forall r, In r rows -> len h <= len r).
@@ -96,7 +98,7 @@ Proof.
 Qed.
 
 Lemma derive_table_rectangular : forall cast h rows, rectangular (h :: rows) = true ->
-  derive_table cast (h :: rows) = Ok (mkTable h (len h) (cast_rows cast (len h) rows)).
+  derive_table cast (h :: rows) = Ok (mkTable h (len h) (cast_rows cast (len h) rows) (text_rows (len h) rows)).
 Proof.
   intros cast h rows H. cbn [derive_table].
   rewrite rows_cast_ok; [reflexivity|].
@@ -148,7 +150,7 @@ Qed.
 
 Lemma parse_loaded_inv : forall cast c t, parse_csv_text_into_table cast c = Ok (Loaded t) ->
   exists h rows, c = CsvRecords (h :: rows) /\
-    t = mkTable h (len h) (cast_rows cast (len h) rows) /\ (forall r, In r rows -> len h <= len r).
+    t = mkTable h (len h) (cast_rows cast (len h) rows) (text_rows (len h) rows) /\ (forall r, In r rows -> len h <= len r).
 Proof.
   intros cast [|[|h rows]] t H; cbn [parse_csv_text_into_table] in H; try discriminate.
   destruct (derive_table cast (h :: rows)) as [t'|] eqn:E; cbn [res_bind] in H; [|discriminate].
@@ -173,12 +175,12 @@ Proof.
   - split; [intros _; apply nth_error_None; exact E|reflexivity].
 Qed.
 
-Lemma cell_of_cast_rows : forall cast n rows col row,
+Lemma cell_of_cast_rows : forall cast n rows tx col row,
   (forall r, In r rows -> n <= len r) -> col < n -> row < len rows ->
-  cell (mkTable (nil) n (cast_rows cast n rows)) col row =
+  cell (mkTable (nil) n (cast_rows cast n rows) tx) col row =
   Ok (to_base cast (nth col (nth row rows []) EmptyString)).
 Proof.
-  intros cast n rows col row Hall Hc Hr. unfold cell. cbn [t_cells].
+  intros cast n rows tx col row Hall Hc Hr. unfold cell. cbn [t_cells].
   assert (Hr' : row < len (cast_rows cast n rows)) by (unfold cast_rows; rewrite map_length; exact Hr).
   set (f := fun r : list string => map (to_base cast) (firstn n r)).
   rewrite (index_ok _ _ _ (f []) Hr'). cbn [res_bind].
@@ -192,17 +194,17 @@ Proof.
   rewrite app_nth1; [reflexivity|]. rewrite firstn_length. lia.
 Qed.
 
-Lemma cell_header_irrelevant : forall h1 h2 n cs col row,
-  cell (mkTable h1 n cs) col row = cell (mkTable h2 n cs) col row.
+Lemma cell_header_irrelevant : forall h1 h2 n cs x1 x2 col row,
+  cell (mkTable h1 n cs x1) col row = cell (mkTable h2 n cs x2) col row.
 Proof. reflexivity. Qed.
 
-Lemma cell_panic_iff_cast_rows : forall cast h n rows col row,
+Lemma cell_panic_iff_cast_rows : forall cast h n rows tx col row,
   (forall r, In r rows -> n <= len r) ->
-  (cell (mkTable h n (cast_rows cast n rows)) col row = Panic <-> ~ (col < n /\ row < len rows)).
+  (cell (mkTable h n (cast_rows cast n rows) tx) col row = Panic <-> ~ (col < n /\ row < len rows)).
 Proof.
-  intros cast h n rows col row Hall.
+  intros cast h n rows tx col row Hall.
   destruct (lt_dec col n) as [Hc|Hc]; destruct (lt_dec row (len rows)) as [Hr|Hr].
-  - rewrite (cell_header_irrelevant h [] n). rewrite cell_of_cast_rows by assumption.
+  - rewrite (cell_header_irrelevant h [] n _ tx tx). rewrite cell_of_cast_rows by assumption.
     split; [discriminate|]. intro H. exfalso; apply H; split; assumption.
   - split; [intros _ [_ H]; contradiction|]. intros _.
     unfold cell. cbn [t_cells].
@@ -224,6 +226,37 @@ Proof.
     rewrite Hp. reflexivity.
 Qed.
 
+(* the remembered text *)
+Lemma nth_error_firstn_lt : forall A (l : list A) n i, i < n -> nth_error (firstn n l) i = nth_error l i.
+Proof.
+  intros A l; induction l as [|a l IH]; intros n i H; destruct n as [|n]; try lia; destruct i as [|i]; cbn; try reflexivity.
+  apply IH. lia.
+Qed.
+
+Lemma text_of_text_rows : forall n rows row col, (forall r, In r rows -> n <= len r) -> col < n -> row < len rows ->
+  exists r, nth_error (text_rows n rows) row = Some r /\
+            nth_error r col = Some (nth col (nth row rows []) EmptyString).
+Proof.
+  intros n rows row col Hall Hc Hr. exists (firstn n (nth row rows [])). split.
+  - unfold text_rows. rewrite nth_error_map. rewrite (nth_error_nth' rows [] Hr). reflexivity.
+  - assert (Hlen : n <= len (nth row rows [])) by (apply Hall; apply nth_In; exact Hr).
+    rewrite nth_error_firstn_lt by exact Hc. apply nth_error_nth'. lia.
+Qed.
+
+Lemma text_out_of_range : forall n rows row col, (forall r, In r rows -> n <= len r) ->
+  ~ (col < n /\ row < len rows) ->
+  match nth_error (text_rows n rows) row with
+  | Some r => nth_error r col = None
+  | None => True
+  end.
+Proof.
+  intros n rows row col Hall Hout. unfold text_rows. rewrite nth_error_map.
+  destruct (nth_error rows row) as [r|] eqn:E; cbn [option_map]; [|exact I].
+  apply nth_error_None. rewrite firstn_length.
+  assert (row < len rows) by (apply nth_error_Some; congruence).
+  assert (n <= len r) by (apply Hall; apply (nth_error_In _ _ E)). lia.
+Qed.
+
 (* ---------- the statements used by Properties/C20.v ---------- *)
 
 Definition loads (cast : caster) (recs : list (list string)) (t : table) : Prop :=
@@ -232,7 +265,39 @@ Definition loads (cast : caster) (recs : list (list string)) (t : table) : Prop 
 Definition n_cols (recs : list (list string)) : nat := len (hd [] recs).
 Definition n_rows (recs : list (list string)) : nat := len (tl recs).
 
-Lemma c20_total : forall cast c, csv_can_return c = true ->
+Lemma c20_faithful : forall cast fmt recs t, loads cast recs t ->
+  header t = hd [] recs /\
+  column_and_row_size t = Ok (n_cols recs, n_rows recs) /\
+  (forall col row, col < n_cols recs -> row < n_rows recs ->
+     cell t col row = Ok (to_base cast (field recs col row)) /\
+     cell_string fmt t col row = Ok (field recs col row)) /\
+  (forall col row, cell t col row = Panic <-> ~ (col < n_cols recs /\ row < n_rows recs)) /\
+  (forall col row, cell_string fmt t col row = Panic <-> ~ (col < n_cols recs /\ row < n_rows recs)).
+Proof.
+  intros cast fmt recs t H. unfold loads in H.
+  destruct (parse_loaded_inv cast _ t H) as [h [rows [Ec [Et Hall]]]].
+  injection Ec as ->. subst t. unfold n_cols, n_rows, field; cbn [hd tl].
+  split; [reflexivity|]. split.
+  { unfold column_and_row_size; cbn [t_colnum t_cells]. unfold cast_rows. rewrite map_length. reflexivity. }
+  split.
+  { intros col row Hcol Hrow. split.
+    - rewrite (cell_header_irrelevant h [] (len h) _ _ (text_rows (len h) rows)). apply cell_of_cast_rows; assumption.
+    - destruct (text_of_text_rows (len h) rows row col Hall Hcol Hrow) as [r [E1 E2]].
+      unfold cell_string. cbn [t_text]. rewrite E1, E2. reflexivity. }
+  split.
+  { intros col row. apply cell_panic_iff_cast_rows. exact Hall. }
+  intros col row. split.
+  - intros Hp [Hcol Hrow].
+    destruct (text_of_text_rows (len h) rows row col Hall Hcol Hrow) as [r [E1 E2]].
+    unfold cell_string in Hp. cbn [t_text] in Hp. rewrite E1, E2 in Hp. discriminate.
+  - intro Hout. pose proof (text_out_of_range (len h) rows row col Hall Hout) as Ht.
+    assert (Hc : cell (mkTable h (len h) (cast_rows cast (len h) rows) (text_rows (len h) rows)) col row = Panic)
+      by (apply cell_panic_iff_cast_rows; assumption).
+    unfold cell_string. cbn [t_text].
+    destruct (nth_error (text_rows (len h) rows) row) as [r|]; [rewrite Ht|]; unfold base_cell_string; rewrite Hc; reflexivity.
+Qed.
+
+Lemma c20_total : forall cast fmt c, csv_can_return c = true ->
   exists l, parse_csv_text_into_table cast c = Ok l /\
     match l with
     | Rejected => c = CsvError \/ c = CsvRecords []
@@ -240,17 +305,16 @@ Lemma c20_total : forall cast c, csv_can_return c = true ->
       exists recs, c = CsvRecords recs /\ recs <> [] /\
         column_and_row_size t = Ok (n_cols recs, n_rows recs) /\
         forall col row, col < n_cols recs -> row < n_rows recs ->
-          exists v, cell t col row = Ok v
+          (exists v, cell t col row = Ok v) /\ (exists s, cell_string fmt t col row = Ok s)
     end.
 Proof.
-  intros cast c Hc. destruct (parse_total cast c Hc) as [l Hl]. exists l; split; [exact Hl|].
+  intros cast fmt c Hc. destruct (parse_total cast c Hc) as [l Hl]. exists l; split; [exact Hl|].
   destruct l as [t|].
-  - destruct (parse_loaded_inv cast c t Hl) as [h [rows [Ec [Et Hall]]]].
+  - destruct (parse_loaded_inv cast c t Hl) as [h [rows [Ec _]]].
     exists (h :: rows); split; [exact Ec|]. split; [discriminate|].
-    subst t. unfold n_cols, n_rows; cbn [hd tl]. split.
-    + unfold column_and_row_size; cbn [t_colnum t_cells]. unfold cast_rows. rewrite map_length. reflexivity.
-    + intros col row Hcol Hrow. eexists.
-      rewrite (cell_header_irrelevant h [] (len h)). apply cell_of_cast_rows; assumption.
+    subst c. destruct (c20_faithful cast fmt (h :: rows) t Hl) as [_ [Hd [Hcell _]]].
+    split; [exact Hd|]. intros col row Hcol Hrow. destruct (Hcell col row Hcol Hrow) as [H1 H2].
+    split; eexists; eassumption.
   - apply (parse_rejects_iff cast c Hc). exact Hl.
 Qed.
 
@@ -268,34 +332,23 @@ Proof.
   - reflexivity.
 Qed.
 
-Lemma c20_faithful : forall cast recs t, loads cast recs t ->
-  header t = hd [] recs /\
-  column_and_row_size t = Ok (n_cols recs, n_rows recs) /\
-  (forall col row, col < n_cols recs -> row < n_rows recs ->
-     cell t col row = Ok (to_base cast (field recs col row))) /\
-  (forall col row, cell t col row = Panic <-> ~ (col < n_cols recs /\ row < n_rows recs)).
-Proof.
-  intros cast recs t H. unfold loads in H.
-  destruct (parse_loaded_inv cast _ t H) as [h [rows [Ec [Et Hall]]]].
-  injection Ec as ->. subst t. unfold n_cols, n_rows, field; cbn [hd tl].
-  split; [reflexivity|]. split.
-  - unfold column_and_row_size; cbn [t_colnum t_cells]. unfold cast_rows. rewrite map_length. reflexivity.
-  - split.
-    + intros col row Hcol Hrow. rewrite (cell_header_irrelevant h [] (len h)).
-      apply cell_of_cast_rows; assumption.
-    + intros col row. apply cell_panic_iff_cast_rows. exact Hall.
-Qed.
-
-Lemma c20_text_preserved : forall cast fmt recs t col row, loads cast recs t ->
+(* every field is read back verbatim by CellString, whatever it was cast to *)
+Lemma c20_verbatim : forall cast fmt recs t col row, loads cast recs t ->
   col < n_cols recs -> row < n_rows recs ->
-  cast (field recs col row) = TText ->
-  cell t col row = Ok (VStr (field recs col row)) /\
   cell_string fmt t col row = Ok (field recs col row).
 Proof.
-  intros cast fmt recs t col row H Hc Hr Htag.
-  destruct (c20_faithful cast recs t H) as [_ [_ [Hcell _]]].
-  specialize (Hcell col row Hc Hr). unfold cell_string. rewrite Hcell. cbn [res_bind].
-  unfold to_base. rewrite Htag. split; reflexivity.
+  intros cast fmt recs t col row H Hc Hr.
+  destruct (c20_faithful cast fmt recs t H) as [_ [_ [Hcell _]]]. apply (Hcell col row Hc Hr).
+Qed.
+
+Lemma c20_text_preserved : forall cast recs t col row, loads cast recs t ->
+  col < n_cols recs -> row < n_rows recs ->
+  cast (field recs col row) = TText ->
+  cell t col row = Ok (VStr (field recs col row)).
+Proof.
+  intros cast recs t col row H Hc Hr Htag.
+  destruct (c20_faithful cast (fun _ => EmptyString) recs t H) as [_ [_ [Hcell _]]].
+  destruct (Hcell col row Hc Hr) as [H1 _]. rewrite H1. unfold to_base. rewrite Htag. reflexivity.
 Qed.
 
 Lemma c20_number_preserved : forall cast recs t col row x, loads cast recs t ->
@@ -304,28 +357,26 @@ Lemma c20_number_preserved : forall cast recs t col row x, loads cast recs t ->
   cell t col row = Ok (VNum x) /\ cell_float64 t col row = Ok x.
 Proof.
   intros cast recs t col row x H Hc Hr Htag.
-  destruct (c20_faithful cast recs t H) as [_ [_ [Hcell _]]].
-  specialize (Hcell col row Hc Hr). unfold cell_float64. rewrite Hcell. cbn [res_bind].
+  destruct (c20_faithful cast (fun _ => EmptyString) recs t H) as [_ [_ [Hcell _]]].
+  destruct (Hcell col row Hc Hr) as [H1 _]. unfold cell_float64. rewrite H1. cbn [res_bind].
   unfold to_base. rewrite Htag. split; reflexivity.
 Qed.
 
-Lemma c20_bool_reads_empty : forall cast fmt recs t col row b, loads cast recs t ->
+Lemma c20_bool_cell : forall cast recs t col row b, loads cast recs t ->
   col < n_cols recs -> row < n_rows recs ->
   cast (field recs col row) = TBool b ->
-  cell t col row = Ok (VBool b) /\ cell_string fmt t col row = Ok EmptyString.
+  cell t col row = Ok (VBool b).
 Proof.
-  intros cast fmt recs t col row b H Hc Hr Htag.
-  destruct (c20_faithful cast recs t H) as [_ [_ [Hcell _]]].
-  specialize (Hcell col row Hc Hr). unfold cell_string. rewrite Hcell. cbn [res_bind].
-  unfold to_base. rewrite Htag. split; reflexivity.
+  intros cast recs t col row b H Hc Hr Htag.
+  destruct (c20_faithful cast (fun _ => EmptyString) recs t H) as [_ [_ [Hcell _]]].
+  destruct (Hcell col row Hc Hr) as [H1 _]. rewrite H1. unfold to_base. rewrite Htag. reflexivity.
 Qed.
 
-(* "numeric fields as numbers, all others as text", as one statement about a loaded cell *)
-Definition typed_faithfully (cast : caster) (fmt : num -> string) (recs : list (list string)) (t : table)
-           (col row : nat) : Prop :=
+(* "numeric fields as numbers, all others as text" at the level of the TYPED cell (Cell / CellFloat64) *)
+Definition typed_faithfully (cast : caster) (recs : list (list string)) (t : table) (col row : nat) : Prop :=
   match cast (field recs col row) with
-  | TNum x => cell_float64 t col row = Ok x
-  | _ => cell_string fmt t col row = Ok (field recs col row)
+  | TNum x => cell t col row = Ok (VNum x) /\ cell_float64 t col row = Ok x
+  | _ => cell t col row = Ok (VStr (field recs col row))
   end.
 
 Lemma no_bool_field_at : forall cast recs col row, no_bool_field cast recs = true ->
@@ -342,11 +393,11 @@ Proof.
   specialize (Hnb _ Hin2). destruct (is_tbool (cast (field recs col row))); [discriminate|reflexivity].
 Qed.
 
-Lemma c20_typed_partial : forall cast fmt recs t, loads cast recs t ->
+Lemma c20_typed_partial : forall cast recs t, loads cast recs t ->
   no_bool_field cast recs = true ->
-  forall col row, col < n_cols recs -> row < n_rows recs -> typed_faithfully cast fmt recs t col row.
+  forall col row, col < n_cols recs -> row < n_rows recs -> typed_faithfully cast recs t col row.
 Proof.
-  intros cast fmt recs t H Hnb col row Hc Hr. unfold typed_faithfully.
+  intros cast recs t H Hnb col row Hc Hr. unfold typed_faithfully.
   assert (Hall : forall r, In r (tl recs) -> n_cols recs <= len r).
   { unfold loads in H. destruct (parse_loaded_inv cast _ t H) as [h [rows [Ec [_ Hall]]]].
     injection Ec as ->. exact Hall. }
@@ -354,5 +405,5 @@ Proof.
   destruct (cast (field recs col row)) as [x|b|] eqn:E.
   - apply (c20_number_preserved cast recs t col row x H Hc Hr E).
   - discriminate Hb.
-  - apply (c20_text_preserved cast fmt recs t col row H Hc Hr E).
+  - apply (c20_text_preserved cast recs t col row H Hc Hr E).
 Qed.
